@@ -24,6 +24,11 @@ package cluster
 //     a v1+ answer has Offset/Timestamp and Offsets = [Offset] (what sarama's decoder leaves);
 //   * kind sc2w: the client is the real helpers.BurrowSaramaClient on a real sarama.Client talking the wire protocol
 //     to sarama.MockBroker instances programmed from the script (restricted scripts: see checks/clustergen.py).
+//     In this kind the <sd> slot holds <mv>: the id of a broker that, before the cycle, goes away at its address and
+//     re-registers under a new one (a new MockBroker; the metadata answer announces the id there; the old listener is
+//     closed) -- only the listener that holds the id NOW counts as "asked".  rp = 1: after the cycle the real
+//     reapNonExistingGroups runs with the real ListConsumerGroups (sarama cluster admin on the module's only client,
+//     MockListGroupsResponse); the cycles after it must still ask and record.
 //
 // Case:   scn|scnx <ncycles> { <cycle> }                                    (kafka-version unset, no storage script)
 //         sc2|sc2x|sc2s|sc2w <kafka-version index> <ncycles> { <sd> <su> <rp> <rm> <cycle> }
@@ -91,6 +96,7 @@ type vcTrow struct {
 
 type vcEnv struct {
 	sd, su, rp, rm bool
+	mv             int32
 	tick           bool
 	topicsOK       bool
 	topics         []string
@@ -122,7 +128,9 @@ func vcTopicID(s string) int64 {
 func vcReadEnv(t *vcToks, scripted bool) *vcEnv {
 	e := &vcEnv{table: map[string]*vcTrow{}, failing: map[int32]bool{}}
 	if scripted {
-		e.sd = t.int() == 1
+		sdv := t.int() // sc2w: the id of a broker that re-registers under a new address before this cycle (0: none)
+		e.sd = sdv == 1
+		e.mv = int32(sdv)
 		e.su = t.int() == 1
 		e.rp = t.int() == 1
 		e.rm = t.int() == 1
@@ -717,14 +725,23 @@ func (sc *vcScn) runWire(emit func(string)) {
 			}
 		}
 	}
-	mocks := map[int32]*sarama.MockBroker{}
-	seen := map[int32]int{}
+	mocks := map[int32]*sarama.MockBroker{} // the listener that holds the id now
+	var all []*sarama.MockBroker             // every listener there ever was (retired ones are closed)
+	current := func(mb *sarama.MockBroker) bool { return mocks[mb.BrokerID()] == mb }
+	seen := map[*sarama.MockBroker]int{}
 	for id := range ids {
 		mocks[id] = sarama.NewMockBroker(rep, id)
-		defer mocks[id].Close()
+		all = append(all, mocks[id])
 	}
+	defer func() {
+		for _, mb := range all {
+			if current(mb) {
+				mb.Close()
+			}
+		}
+	}()
 	program := func(e *vcEnv) {
-		md := sarama.NewMockMetadataResponse(rep)
+		md := sarama.NewMockMetadataResponse(rep).SetController(1)
 		for id, mb := range mocks {
 			md.SetBroker(mb.Addr(), id)
 		}
@@ -744,8 +761,20 @@ func (sc *vcScn) runWire(emit func(string)) {
 				"ApiVersionsRequest": sarama.NewMockApiVersionsResponse(rep),
 				"MetadataRequest":    md,
 				"OffsetRequest":      ofs,
+				"ListGroupsRequest":  sarama.NewMockListGroupsResponse(rep).AddGroup("g1", "consumer"),
 			})
 		}
+	}
+	metaCount := func() int {
+		n := 0
+		for _, mb := range all {
+			for _, rr := range mb.History() {
+				if _, ok := rr.Request.(*sarama.MetadataRequest); ok {
+					n++
+				}
+			}
+		}
+		return n
 	}
 	program(sc.envs[0])
 	real, err := sarama.NewClient([]string{mocks[1].Addr()}, module.saramaConfig)
@@ -759,50 +788,55 @@ func (sc *vcScn) runWire(emit func(string)) {
 	go st.loop()
 	defer close(st.ctl)
 	for i, e := range sc.envs {
+		if i > 0 && e.mv > 1 && mocks[e.mv] != nil {
+			// broker e.mv comes back under a new address: nobody listens at the old one any more
+			old := mocks[e.mv]
+			mocks[e.mv] = sarama.NewMockBroker(rep, e.mv)
+			all = append(all, mocks[e.mv])
+			old.Close()
+		}
 		program(e)
 		st.call(vcOpBegin, false, false)
-		metaBefore := 0
-		for _, mb := range mocks {
-			for _, rr := range mb.History() {
-				if _, ok := rr.Request.(*sarama.MetadataRequest); ok {
-					metaBefore++
-				}
-			}
-		}
+		metaBefore := metaCount()
 		if i == 0 || e.tick {
 			module.fetchMetadata = true // Start() / case <-module.metadataTicker.C
 		}
 		module.getOffsets(client) // case <-module.offsetTicker.C
 		flag := module.fetchMetadata
+		if e.rp {
+			module.reapNonExistingGroups(client) // case <-module.groupsReaperTicker.C
+		}
 		rec := st.call(vcOpEnd, false, false)
 		var asks [][]int64
-		bad, metaAfter := 0, 0
-		for id, mb := range mocks {
+		bad, stale := 0, 0
+		for _, mb := range all {
 			hist := mb.History()
-			for _, rr := range hist[seen[id]:] {
+			for _, rr := range hist[seen[mb]:] {
 				if rq, ok := rr.Request.(*sarama.OffsetRequest); ok {
+					if !current(mb) {
+						stale++ // an OffsetRequest went to a listener that no longer holds the id
+						continue
+					}
 					blocks, ok := vcRequestBlocks(rq)
 					if !ok {
 						bad++
 					}
 					for _, a := range blocks {
-						asks = append(asks, []int64{int64(id), vcTopicID(a.topic), int64(a.part)})
+						asks = append(asks, []int64{int64(mb.BrokerID()), vcTopicID(a.topic), int64(a.part)})
 						if a.bad {
 							bad++
 						}
 					}
 				}
 			}
-			seen[id] = len(hist)
-			for _, rr := range hist {
-				if _, ok := rr.Request.(*sarama.MetadataRequest); ok {
-					metaAfter++
-				}
-			}
+			seen[mb] = len(hist)
 		}
-		s := fmt.Sprintf("M%s F%s R %s U %s D %s", vcB01(metaAfter > metaBefore), vcB01(flag), vcCsv(asks), vcCsv(rec.ups), vcCsv(rec.dels))
-		if n := rep.take(); rec.other > 0 || bad > 0 || n > 0 {
-			s += fmt.Sprintf(" X other=%d badblocks=%d mockerrors=%d", rec.other, bad, n)
+		s := fmt.Sprintf("M%s F%s R %s U %s D %s", vcB01(metaCount() > metaBefore), vcB01(flag), vcCsv(asks), vcCsv(rec.ups), vcCsv(rec.dels))
+		reaperOK := (!e.rp && rec.fetches == 0 && len(rec.groups) == 0) ||
+			(e.rp && rec.fetches == 1 && len(rec.groups) == 1 && rec.groups[0] == "g2")
+		if n := rep.take(); rec.other > 0 || bad > 0 || stale > 0 || n > 0 || !reaperOK || rec.replyStuck > 0 {
+			s += fmt.Sprintf(" X other=%d badblocks=%d stale=%d mockerrors=%d reaper=%d/%s/%d", rec.other, bad, stale, n,
+				rec.fetches, strings.Join(rec.groups, "+"), rec.replyStuck)
 		}
 		emit(s)
 	}
